@@ -12,6 +12,7 @@ import sys
 
 _CONTAINERS = []      # the live container objects
 _BASELINE = []        # their content right after import
+_CACHED = []          # functions wrapped by functools.lru_cache / cache
 
 
 def _discover():
@@ -36,6 +37,10 @@ def _discover():
                         v is c for c in _CONTAINERS):
                     _CONTAINERS.append(v)
                     _BASELINE.append(copy.copy(v))
+                f = getattr(v, '__func__', v)
+                if callable(getattr(f, 'cache_clear', None)) and not any(
+                        f is c for c in _CACHED):
+                    _CACHED.append(f)
 
 
 def capture():
@@ -48,6 +53,11 @@ def restore(snapshot=None):
     """Put the containers back to a captured content (default: the content
     right after import)."""
     _discover()
+    if snapshot is None:
+        # memoised functions start empty (their content cannot be captured,
+        # so a captured state is restored without it)
+        for f in _CACHED:
+            f.cache_clear()
     for c, snap in zip(_CONTAINERS, snapshot or _BASELINE):
         if c == snap:
             continue
